@@ -189,7 +189,7 @@ func expectedLog(rd rread) []cbEvent {
 
 func runC18(c *ctx) {
 	r := c.rng("specs")
-	n := c.n(12000, 120000)
+	n := c.n(12000, 400000)
 	injectEvery := c.n(40, 12) // every k-th text gets the full error-injection sweep
 	for i := 0; i < n; i++ {
 		g := genSyntacticSpec(r, 1+r.intn(6), 1+r.intn(4))
